@@ -88,6 +88,9 @@ func (c *Ctx) scanTypeInv(ti *TypeInv) ([]*Obligation, int) {
 	for _, o := range ti.Owners {
 		owners[o] = true
 	}
+	for _, o := range ti.Preserving {
+		owners[o] = true
+	}
 	fields := map[string]bool{}
 	for _, f := range ti.Fields {
 		fields[f] = true
@@ -144,7 +147,7 @@ func (c *Ctx) scanTypeInv(ti *TypeInv) ([]*Obligation, int) {
 		}
 	}
 	// every owner must exist
-	for _, o := range ti.Owners {
+	for _, o := range append(append([]string{}, ti.Owners...), ti.Preserving...) {
 		if c.funcs[o] == nil {
 			bad = append(bad, "owner function not found: "+o)
 		}
